@@ -10,7 +10,8 @@ if "--tier" in args:
 sid = args[0]
 d = f"/verif/seeded/{sid}"
 meta = json.load(open(f"{d}/meta.json"))
-props = args[1:] or [meta["property"]]
+# default: the seed's own property plus every other check it was tried against before
+props = args[1:] or ([meta["property"]] + sorted(k for k in meta.get("checks_quick", {}) if k != meta["property"]))
 st = subprocess.run(["git", "-C", "/repo", "status", "--porcelain"], capture_output=True, text=True).stdout.strip()
 if st:
     sys.exit("refusing: /repo working tree is not clean:\n" + st)
